@@ -246,6 +246,88 @@ theorem node_mineable_set_total (c : Ctx) (ns : List NOp) :
   rw [nrun_eq_run]
   exact mineable_set_total_after_any_history c _
 
+/-! ## what the Dandelion monitor fluffs -/
+
+/-- a list that is empty or whose aggregate TOGETHER WITH the extra transaction passes
+`validate_raw_tx` (`validate_raw_txs` with `extra_tx`: the txpool aggregate in `process_fluff_phase`) -/
+def SetOKx (c : Ctx) (w : Weighting) (extra : Option Tx) (txs : List Tx) : Prop :=
+  txs = [] ∨ ∃ a, aggregate (extra.toList ++ txs) = .ok a ∧ validateRawTx c w a = none
+
+/-- `validate_raw_txs` with an extra transaction: what it keeps comes from the candidates, and —
+unless nothing is kept — aggregates with the extra transaction into something that validates on
+the head -/
+theorem validateRawTxs_spec_extra (c : Ctx) (w : Weighting) (extra : Option Tx)
+    (txs valid res : List Tx) (hv : SetOKx c w extra valid)
+    (h : validateRawTxs c w extra txs valid = .ok res) :
+    SetOKx c w extra res ∧ ∀ t ∈ res, t ∈ valid ∨ t ∈ txs := by
+  induction txs generalizing valid with
+  | nil =>
+    simp only [validateRawTxs, Except.ok.injEq] at h
+    subst h
+    exact ⟨hv, fun t ht => Or.inl ht⟩
+  | cons x rest ih =>
+    simp only [validateRawTxs] at h
+    split at h
+    · obtain ⟨h1, h2⟩ := ih valid hv h
+      refine ⟨h1, fun t ht => ?_⟩
+      rcases h2 t ht with h | h
+      · exact Or.inl h
+      · right; simp [h]
+    · rename_i a ha
+      split at h
+      · rename_i hva
+        obtain ⟨h1, h2⟩ := ih (valid ++ [x]) (Or.inr ⟨a, by rw [← List.append_assoc]; exact ha, hva⟩) h
+        refine ⟨h1, fun t ht => ?_⟩
+        rcases h2 t ht with h | h
+        · rcases List.mem_append.mp h with h | h
+          · exact Or.inl h
+          · right; simp at h; simp [h]
+        · right; simp [h]
+      · obtain ⟨h1, h2⟩ := ih valid hv h
+        refine ⟨h1, fun t ht => ?_⟩
+        rcases h2 t ht with h | h
+        · exact Or.inl h
+        · right; simp [h]
+
+/-- **the fluff phase**: whenever `process_fluff_phase` submits something, it is the aggregate of
+stempool transactions which, together with the aggregate of the whole txpool, validate on the
+head (so the set is `NetOK`: every spend covered, no duplicate) — the stem transactions that no
+longer fit the txpool are left out, not fluffed -/
+theorem fluff_phase_submits_what_fits_the_txpool (c : Ctx) (s : TxPool) (e a : Bool) (agg : Tx)
+    (h : fluffOps c s e a = [.submit .fluff agg false false]) :
+    ∃ x fl, Pool.allAggregate c s.txpool none = .ok x ∧ aggregate fl = .ok agg ∧
+      (∀ t ∈ fl, t ∈ s.stempool.txs) ∧
+      (fl = [] ∨ NetOK (utxoIds c) (x.toList ++ fl)) := by
+  unfold fluffOps at h
+  split at h
+  · simp at h
+  split at h
+  · simp at h
+  split at h
+  · simp at h
+  rename_i x hx
+  split at h
+  · simp at h
+  rename_i fl hfl
+  split at h
+  · simp at h
+  rename_i agg' hagg
+  split at h
+  · simp at h
+  simp only [List.cons.injEq, and_true] at h
+  have hag : agg' = agg := by
+    injection h
+  subst hag
+  obtain ⟨hset, hmem⟩ := validateRawTxs_spec_extra c .noLimit x s.stempool.txs [] fl (Or.inl rfl) hfl
+  refine ⟨x, fl, hx, hagg, ?_, ?_⟩
+  · intro t ht
+    rcases hmem t ht with h | h
+    · simp at h
+    · exact h
+  · rcases hset with h | ⟨a', ha', hva'⟩
+    · exact Or.inl h
+    · exact Or.inr (netOK_of_aggregate ha' hva')
+
 /-! ## the miner -/
 
 /-- `build_block` never needs its fallback to an empty block after a node history: the
@@ -308,6 +390,11 @@ theorem monitor_fluffs_the_aggregated_stempool :
     (nstep (nrun (mnc, {}) mnOps) (.monitor fluffEp [] [])).2 = (nrun (mnc, {}) mnOps).2 ∧
     -- a stem epoch only handles the embargo: V alone runs out, U stays
     (nstep (nrun (mnc, {}) mnOps) (.monitor { fluffEp with isStem := true } [rpU, rpV] [rpV])).2.stempool.txs = [rpU] := by
+  decide
+
+/-- non-vacuity of `fluff_phase_submits_what_fits_the_txpool`: in this state the fluff phase makes
+its one submission -/
+example : (fluffOps (nrun (mnc, {}) mnOps).1 (nrun (mnc, {}) mnOps).2 false true).length = 1 := by
   decide
 
 /-- the pool operations this node history amounts to: three submissions (the transaction received
